@@ -21,12 +21,9 @@ from harness import lean, pipeline, sched
 THEOREMS = [
     "Ffcx.Jit.at_most_one_builder",
     "Ffcx.Jit.exactly_one_builder",
-    "Ffcx.Jit.marker_implies_complete_partial",
-    "Ffcx.Jit.marker_implies_complete_counterexample",
-    "Ffcx.Jit.load_only_complete_partial",
-    "Ffcx.Jit.load_only_complete_counterexample",
-    "Ffcx.Jit.reuse_partial",
-    "Ffcx.Jit.reuse_counterexample",
+    "Ffcx.Jit.marker_implies_complete",
+    "Ffcx.Jit.load_only_complete",
+    "Ffcx.Jit.reuse",
     "Ffcx.Jit.timeout_bound",
     "Ffcx.Jit.no_failure_all_succeed",
 ]
@@ -193,7 +190,7 @@ def run(chk):
                         all_prefixes[timeout] = prefixes
                         chk.notes[f"exhaustive_2proc_timeout{timeout}"] = len(prefixes)
                         for pre in prefixes:
-                            schedule = [(p, "none") for p in pre] + completion([0, 1], 5) + completion([2], 5)
+                            schedule = [(p, "none") for p in pre] + completion([0, 1], 6) + completion([2], 5)
                             nontrivial = len(set(pre)) > 1
                             run_one(chk, P, d, root, idx, 3, timeout, schedule, late_pids=[2], kind="exhaustive2",
                                     key=("t%d:" % timeout + "".join(map(str, pre))) if nontrivial else None)
@@ -211,7 +208,7 @@ def run(chk):
                         schedule = [(p, "none") for p in pre]
                         tail = rng.random() < 0.7
                         if tail:
-                            schedule += completion(range(n), timeout + 15)
+                            schedule += completion(range(n), timeout + 17)
                         key = f"n{n}t{timeout}:" + "".join(map(str, pre)) if len(set(pre[:9])) > 1 else None
                         randoms.append((n, timeout, schedule, key))
                         run_one(chk, P, d, root, idx, n, timeout, schedule, kind="random", key=key)
@@ -222,7 +219,7 @@ def run(chk):
                     step_e, step_r = (3, 4) if thorough else (6, 8)
                     for timeout, prefixes in all_prefixes.items():
                         for pre in prefixes[::step_e]:
-                            schedule = [(p, "none") for p in pre] + completion([0, 1], 5) + completion([2], 5)
+                            schedule = [(p, "none") for p in pre] + completion([0, 1], 6) + completion([2], 5)
                             run_one(chk, P, d, root, idx, 3, timeout, schedule, late_pids=[2], kind="exhaustive2",
                                     key=("t%d:" % timeout + "".join(map(str, pre))) if len(set(pre)) > 1 else None)
                             idx += 1
